@@ -2,7 +2,9 @@ package main
 
 import (
 	"fmt"
+	"go/ast"
 	"go/types"
+	"math/big"
 	"strings"
 
 	"golang.org/x/tools/go/ssa"
@@ -20,6 +22,7 @@ type Unit struct {
 	Lemma    *Lemma
 	Trusted  string
 	Timeout  int
+	Pkg      string
 }
 
 func (p *Program) newExec(unit string) *Exec {
@@ -56,7 +59,7 @@ func (x *Exec) ghostInitial(g *GhostVar) Value {
 
 // verifyFunc builds the VC of one function against its contract.
 func (p *Program) verifyFunc(fc *FuncContract) (u *Unit) {
-	u = &Unit{Name: fc.Key, Kind: "func", Props: fc.Props, Contract: fc, Timeout: fc.Timeout}
+	u = &Unit{Name: fc.Key, Kind: "func", Props: fc.Props, Contract: fc, Timeout: fc.Timeout, Pkg: fc.Pkg}
 	fn := p.funcs[fc.Key]
 	if fn == nil {
 		u.Err = "function " + fc.Key + " not found in the program (renamed or removed?)"
@@ -118,6 +121,22 @@ func (p *Program) verifyFunc(fc *FuncContract) (u *Unit) {
 	}
 	// splits
 	for _, s := range fc.Splits {
+		if call, isCall := s.Expr.(*ast.CallExpr); isCall {
+			if id, isId := call.Fun.(*ast.Ident); isId && id.Name == "bits" && len(call.Args) == 3 {
+				// split bits(x, lo, hi) in 0..2^k-1: x must be an input constant
+				base, okb := x.evalExpr(fr, &entry, call.Args[0], opts).(Sc)
+				lo := int(x.evalExpr(fr, &entry, call.Args[1], opts).(Untyped).V.(*big.Int).Int64())
+				hi := int(x.evalExpr(fr, &entry, call.Args[2], opts).(Untyped).V.(*big.Int).Int64())
+				if !okb || !isAtom(base.T) || strings.HasPrefix(base.S, "#") {
+					bail("split bits(x, lo, hi): x must be an input of the unit")
+				}
+				if s.Lo != 0 || s.Hi != (int64(1)<<uint(hi-lo+1))-1 {
+					bail("split bits(x, %d, %d) must range over 0..%d", lo, hi, (int64(1)<<uint(hi-lo+1))-1)
+				}
+				x.vc.Splits = append(x.vc.Splits, SplitCase{Lo: s.Lo, Hi: s.Hi, Src: s.Src, BitsOf: base.S, BitHi: hi, BitLo: lo})
+				continue
+			}
+		}
 		v := x.evalExpr(fr, &entry, s.Expr, opts)
 		sc, ok := v.(Sc)
 		if !ok {
@@ -175,12 +194,22 @@ func (p *Program) verifyFunc(fc *FuncContract) (u *Unit) {
 		}
 	}
 	for i, e := range fc.Ensures {
-		g := x.evalBoolClause(fr, &out, e, opts)
+		g := x.evalGoalClause(fr, &out, e, opts)
 		name := fmt.Sprintf("%s#post%d", fc.Key, i+1)
 		if e.Label != "" {
 			name = fmt.Sprintf("%s#post.%s", fc.Key, e.Label)
 		}
-		x.vc.oblige(&Obligation{Name: name, Kind: "post", Func: fc.Key, Guard: out.reach, Goal: g, Src: e.Src, Pos: fmt.Sprintf("%s:%d", e.File, e.Line)})
+		if kf := openFinding(name); kf != nil && kf.InputClass != "" {
+			ce, err := parseExprSrc(kf.InputClass)
+			if err != nil {
+				bail("known finding %s: %v", name, err)
+			}
+			class := x.evalBoolClause(fr, &entry, Clause{Expr: ce, Src: kf.InputClass, File: "known_findings.json"}, opts)
+			x.vc.oblige(&Obligation{Name: name, Kind: "post", Func: fc.Key, Guard: out.reach, Goal: mkOr(class, g), Src: e.Src + "   [outside the known-finding input class: " + kf.InputClass + "]", Pos: fmt.Sprintf("%s:%d", e.File, e.Line)})
+			x.vc.oblige(&Obligation{Name: name + "!known", Kind: "post", Func: fc.Key, Guard: mkAnd(out.reach, class), Goal: g, Src: e.Src + "   [on the known-finding input class]", Known: kf})
+			continue
+		}
+		x.vc.oblige(&Obligation{Name: name, Kind: "post", Func: fc.Key, Guard: out.reach, Goal: g, Src: e.Src, Pos: fmt.Sprintf("%s:%d", e.File, e.Line), Slow: e.Slow})
 	}
 	for _, fname := range fc.Establishes {
 		lm := p.contracts.Lemmas[fname]
@@ -189,7 +218,7 @@ func (p *Program) verifyFunc(fc *FuncContract) (u *Unit) {
 			hyps = append(hyps, x.evalBoolClause(fr, &out, h, opts))
 		}
 		for _, c := range lm.Concl {
-			concl = append(concl, x.evalBoolClause(fr, &out, c, opts))
+			concl = append(concl, x.evalGoalClause(fr, &out, c, opts))
 		}
 		x.vc.oblige(&Obligation{Name: fc.Key + "#establishes." + lm.Name, Kind: "post", Func: fc.Key, Guard: mkAnd(append([]T{out.reach}, hyps...)...), Goal: mkAnd(concl...), Src: "fact " + lm.Name})
 	}
@@ -215,7 +244,7 @@ func (x *Exec) frameObligations(fr *frame, entry, out *State, fc *FuncContract, 
 		objs[o] = true
 	}
 	for o := range objs {
-		if o.Kind == "alloc" || o.Kind == "fresh" {
+		if o.Kind == "alloc" || o.Kind == "fresh" || o.Kind == "track" {
 			continue
 		}
 		va := x.contents(&a, o)
@@ -302,6 +331,15 @@ func (x *Exec) useLemma(fr *frame, st *State, ul UseLemma, opts *evalOpts) {
 			sort, signed := lemmaParamSort(x, prm.Type)
 			v = x.coerceTo(u, sort, signed)
 		}
+		if sc, ok := v.(Sc); ok && !strings.HasPrefix(prm.Type, "*") {
+			// the argument takes the parameter's declared sort and signedness
+			sort, signed := lemmaParamSort(x, prm.Type)
+			if sc.Sort != sort {
+				bail("lemma %s: argument %s has sort %s, expected %s", ul.Lemma, prm.Name, sc.Sort, sort)
+			}
+			sc.Signed = signed
+			v = sc
+		}
 		b[prm.Name] = v
 	}
 	o2 := *opts
@@ -345,7 +383,7 @@ func lemmaParamSort(x *Exec, typ string) (string, bool) {
 // verifyLemma builds the VC of a lemma: forall params. hyps => concl.
 func (p *Program) verifyLemma(lm *Lemma) (u *Unit) {
 	name := lm.Pkg + "." + lm.Name
-	u = &Unit{Name: "lemma " + name, Kind: "lemma", Props: lm.Props, Lemma: lm, Timeout: lm.Timeout}
+	u = &Unit{Name: "lemma " + name, Kind: "lemma", Props: lm.Props, Lemma: lm, Timeout: lm.Timeout, Pkg: lm.Pkg}
 	x := p.newExec("lemma " + name)
 	u.VC = x.vc
 	defer func() {
@@ -368,11 +406,15 @@ func (p *Program) verifyLemma(lm *Lemma) (u *Unit) {
 			st.names[prm.Name] = Sc{T: x.vc.input(prm.Name, sort), Signed: signed}
 			continue
 		}
-		tn := x.lookupTypeName(fr, prm.Type)
+		tn := x.lookupTypeName(fr, strings.TrimPrefix(prm.Type, "*"))
 		if tn == nil {
 			bail("lemma %s: unknown parameter type %s", name, prm.Type)
 		}
-		st.names[prm.Name] = x.freshValue(tn.Type(), prm.Name)
+		if strings.HasPrefix(prm.Type, "*") {
+			st.names[prm.Name] = x.freshValue(types.NewPointer(tn.Type()), prm.Name)
+		} else {
+			st.names[prm.Name] = x.freshValue(tn.Type(), prm.Name)
+		}
 	}
 	opts := &evalOpts{ghost: map[string]Value{}}
 	for _, h := range lm.Hyps {
@@ -391,12 +433,196 @@ func (p *Program) verifyLemma(lm *Lemma) (u *Unit) {
 		x.vc.oblige(&Obligation{Name: "lemma " + name + "#split.exhaustive." + sanitize(s.Src), Kind: "split", Func: name, Guard: tTrue, Goal: mkOr(cases...), Src: s.Src})
 	}
 	for i, c := range lm.Concl {
-		g := x.evalBoolClause(fr, &st, c, opts)
+		g := x.evalGoalClause(fr, &st, c, opts)
 		nm := fmt.Sprintf("lemma %s#concl%d", name, i+1)
 		if c.Label != "" {
 			nm = fmt.Sprintf("lemma %s#concl.%s", name, c.Label)
 		}
-		x.vc.oblige(&Obligation{Name: nm, Kind: "lemma", Func: name, Guard: tTrue, Goal: g, Src: c.Src, Pos: fmt.Sprintf("%s:%d", c.File, c.Line)})
+		x.vc.oblige(&Obligation{Name: nm, Kind: "lemma", Func: name, Guard: tTrue, Goal: g, Src: c.Src, Pos: fmt.Sprintf("%s:%d", c.File, c.Line), Slow: c.Slow})
 	}
 	return u
+}
+
+// verifyScenario verifies a straight-line sequence of calls against requires/ensures.
+func (p *Program) verifyScenario(sc *Scenario) (u *Unit) {
+	fc := sc.FC
+	u = &Unit{Name: fc.Key, Kind: "func", Props: fc.Props, Contract: fc, Timeout: fc.Timeout, Pkg: sc.Pkg}
+	x := p.newExec(fc.Key)
+	u.VC = x.vc
+	defer func() {
+		if r := recover(); r != nil {
+			if se, ok := r.(structureError); ok {
+				u.Err = se.msg
+				return
+			}
+			panic(r)
+		}
+	}()
+	x.fc = fc
+	x.nopanic = fc.NoPanic
+	fr := &frame{name: fc.Key, fc: fc, top: true}
+	if sp, ok := p.byShort[sc.Pkg]; ok {
+		fr.fn = sp.Func("init")
+	}
+	st := State{reach: tTrue, mem: map[*Object]Value{}, env: map[ssa.Value]Value{}, names: map[string]Value{}}
+	for _, prm := range sc.Params {
+		tname := strings.TrimPrefix(prm.Type, "*")
+		var t types.Type
+		if obj := types.Universe.Lookup(tname); obj != nil {
+			t = obj.Type()
+		} else if i := strings.Index(tname, "."); i >= 0 {
+			if pk := p.packageByShortName(tname[:i]); pk != nil {
+				if o := pk.Scope().Lookup(tname[i+1:]); o != nil {
+					t = o.Type()
+				}
+			}
+		} else if tn := x.lookupTypeName(fr, tname); tn != nil {
+			t = tn.Type()
+		}
+		if t == nil {
+			bail("scenario %s: unknown type %s", sc.Name, prm.Type)
+		}
+		if strings.HasPrefix(prm.Type, "*") {
+			t = types.NewPointer(t)
+		}
+		st.names[prm.Name] = x.freshValue(t, prm.Name)
+	}
+	entry := st.clone()
+	x.entry = &entry
+	opts := &evalOpts{old: &entry, ghost: map[string]Value{}}
+	for _, g := range fc.Ghosts {
+		opts.ghost[g.Name] = x.nameValue(g.Name, x.evalExpr(fr, &entry, g.Expr, opts))
+	}
+	for _, r := range fc.Requires {
+		x.vc.assume(x.evalBoolClause(fr, &entry, r, opts), "requires "+r.Src)
+	}
+	x.vc.oblige(&Obligation{Name: fc.Key + "#cover.pre", Kind: "cover", Func: fc.Key, Guard: tTrue, Goal: tTrue, Cover: true, Src: "requires are satisfiable"})
+	for _, s := range fc.Splits {
+		v := x.evalExpr(fr, &entry, s.Expr, opts)
+		scv, ok := v.(Sc)
+		if !ok {
+			bail("split expression is not scalar")
+		}
+		t := x.vc.def("split", scv.T)
+		x.vc.Splits = append(x.vc.Splits, SplitCase{Term: t, Lo: s.Lo, Hi: s.Hi, Src: s.Src})
+		var cases []T
+		for k := s.Lo; k <= s.Hi; k++ {
+			cases = append(cases, mkEq(t, litBig(t.W(), bigInt(k))))
+		}
+		x.vc.oblige(&Obligation{Name: fc.Key + "#split.exhaustive." + sanitize(s.Src), Kind: "split", Func: fc.Key, Guard: tTrue, Goal: mkOr(cases...), Src: s.Src})
+	}
+	x.topOpts = opts
+	cur := st
+	for i, step := range sc.Steps {
+		call, ok := step.Call.Expr.(*ast.CallExpr)
+		if !ok {
+			bail("scenario step %d is not a call", i+1)
+		}
+		fn, args := x.resolveCall(fr, &cur, call, opts)
+		var res Value
+		name := shortFuncName(fn)
+		cfc := p.contracts.Funcs[name]
+		if !step.Inline && cfc != nil && cfc.HasSpec() {
+			res = x.applyContract(fr, &cur, fn, cfc, args, nil)
+		} else {
+			out, r, ok := x.runFunc(fn, args, nil, cur, false)
+			if !ok {
+				bail("scenario step %d never returns", i+1)
+			}
+			out.names = cur.names
+			cur = out
+			res = r
+		}
+		if step.Bind != "" {
+			cur.names[step.Bind] = res
+		}
+	}
+	x.vc.oblige(&Obligation{Name: fc.Key + "#cover.end", Kind: "cover", Func: fc.Key, Guard: cur.reach, Goal: tTrue, Cover: true, Src: "the end of the scenario is reachable"})
+	for i, e := range fc.Ensures {
+		g := x.evalGoalClause(fr, &cur, e, opts)
+		name := fmt.Sprintf("%s#post%d", fc.Key, i+1)
+		if e.Label != "" {
+			name = fmt.Sprintf("%s#post.%s", fc.Key, e.Label)
+		}
+		x.vc.oblige(&Obligation{Name: name, Kind: "post", Func: fc.Key, Guard: cur.reach, Goal: g, Src: e.Src, Pos: fmt.Sprintf("%s:%d", e.File, e.Line), Slow: e.Slow})
+	}
+	u.Bounded = x.bounded
+	return u
+}
+
+// resolveCall resolves `recv.Method(args)` / `pkg.Func(args)` / `Func(args)` to an SSA function and
+// evaluated arguments (receiver first).
+func (x *Exec) resolveCall(fr *frame, st *State, call *ast.CallExpr, opts *evalOpts) (*ssa.Function, []Value) {
+	var args []Value
+	evalArgs := func() {
+		for _, a := range call.Args {
+			args = append(args, x.evalExpr(fr, st, a, opts))
+		}
+	}
+	coerce := func(f *ssa.Function) {
+		for i, a := range args {
+			if u, ok := a.(Untyped); ok {
+				sort, signed, ok2 := scalarSort(f.Params[i].Type())
+				if !ok2 {
+					bail("untyped argument for non-scalar parameter")
+				}
+				args[i] = x.coerceTo(u, sort, signed)
+			}
+		}
+	}
+	switch f := call.Fun.(type) {
+	case *ast.Ident:
+		var fn *ssa.Function
+		if fr.fn != nil && fr.fn.Pkg != nil {
+			fn = fr.fn.Pkg.Func(f.Name)
+		}
+		if fn == nil {
+			fn = x.prog.funcAnywhere(f.Name)
+		}
+		if fn == nil {
+			bail("unknown function %s", f.Name)
+		}
+		evalArgs()
+		coerce(fn)
+		return fn, args
+	case *ast.SelectorExpr:
+		if id, ok := f.X.(*ast.Ident); ok {
+			if _, isName := st.names[id.Name]; !isName {
+				if pkg := x.prog.packageByShortName(id.Name); pkg != nil {
+					if o, ok := pkg.Scope().Lookup(f.Sel.Name).(*types.Func); ok {
+						fn := x.prog.ssaProg.FuncValue(o)
+						evalArgs()
+						coerce(fn)
+						return fn, args
+					}
+				}
+			}
+		}
+		recv := x.evalExpr(fr, st, f.X, opts)
+		fn := x.prog.methodFor(recv, f.Sel.Name)
+		if fn == nil {
+			bail("cannot resolve method %s", f.Sel.Name)
+		}
+		if _, isPtrRecv := fn.Signature.Recv().Type().(*types.Pointer); !isPtrRecv {
+			if p, isP := recv.(Ptr); isP {
+				recv = x.load(st, p)
+			}
+		}
+		args = append(args, recv)
+		evalArgs()
+		coerce(fn)
+		return fn, args
+	}
+	bail("unsupported call form")
+	return nil, nil
+}
+
+func openFinding(obl string) *KnownFinding {
+	for i := range knownFindings {
+		k := &knownFindings[i]
+		if k.Status == "open" && k.Obligation == obl {
+			return k
+		}
+	}
+	return nil
 }
